@@ -1,0 +1,50 @@
+"""
+Verification hooks for deterministic simulation (off by default).
+
+Nothing in here changes solver behaviour unless the environment variable
+SOLVOR_VERIF=1 is set *and* a sink object has been installed by a test harness.
+With the guard off, ACTIVE stays False and every hook site is a single
+attribute test that is never taken.
+
+    from solvor import _verif
+    _verif.install(sink)     # sink.choose(point, default, ctx) / sink.event(kind, data)
+    ...
+    _verif.uninstall()
+"""
+
+from os import environ
+
+__all__ = ["ACTIVE", "install", "uninstall", "choose", "emit"]
+
+ENABLED = environ.get("SOLVOR_VERIF") == "1"
+ACTIVE = False
+_sink = None
+
+
+def install(sink) -> bool:
+    """Install a sink. Ignored (returns False) unless SOLVOR_VERIF=1."""
+    global ACTIVE, _sink
+    if not ENABLED:
+        return False
+    _sink = sink
+    ACTIVE = sink is not None
+    return ACTIVE
+
+
+def uninstall() -> None:
+    global ACTIVE, _sink
+    _sink = None
+    ACTIVE = False
+
+
+def choose(point: str, default, **ctx):
+    """Let the sink override a don't-care choice; returns default when inactive."""
+    if _sink is None:
+        return default
+    return _sink.choose(point, default, ctx)
+
+
+def emit(kind: str, **data) -> None:
+    """Report an internal event to the sink."""
+    if _sink is not None:
+        _sink.event(kind, data)
